@@ -781,7 +781,7 @@ extern const BaseAddSub baseAddSub[4];
 extern const BaseAdr baseAdr[2];
 extern const BaseAtDcIcTlbi baseAtDcIcTlbi[4];
 extern const BaseAtomicCasp baseAtomicCasp[4];
-extern const BaseAtomicOp baseAtomicOp[123];
+extern const BaseAtomicOp baseAtomicOp[120];
 extern const BaseAtomicSt baseAtomicSt[48];
 extern const BaseBfc baseBfc[1];
 extern const BaseBfi baseBfi[3];
